@@ -611,8 +611,17 @@ func main() {
 		1<<48 - 1, 1 << 48, 1<<48 + 7, 1<<62 - 2, 1<<62 - 1}
 	for _, class := range []int{1, 2, 4, 8} {
 		max := map[int]uint64{1: 1<<6 - 1, 2: 1<<14 - 1, 4: 1<<30 - 1, 8: 1<<62 - 1}[class]
-		for _, d := range declared {
+		// largest declared lengths first: a consumer that allocates what is declared fails fast on
+		// 2^62-1 (recoverable) before it gets the chance to take the process down with a mid-sized
+		// request; once a huge length has misbehaved the remaining huge ones are skipped
+		hugeBroken := false
+		for di := len(declared) - 1; di >= 0; di-- {
+			d := declared[di]
 			if d > max {
+				continue
+			}
+			if hugeBroken && d >= 1<<31 {
+				r.NotExhaustive("declared lengths >= 2^31 skipped after a violation with a larger one")
 				continue
 			}
 			for rem := 0; rem <= 70; rem++ {
@@ -620,6 +629,9 @@ func main() {
 					c := lpCase{Fn: "varint", Class: class, Declared: d, Remain: rem, Spare: spare}
 					if viol := checkLP(c); viol != nil {
 						r.Violation("lp", c, viol)
+						if d >= 1<<31 {
+							hugeBroken = true
+						}
 					}
 					r.Case(fmt.Sprintf("lpv-%d-%d-%d-%d", class, d, rem, spare), d != 0, map[bool]string{true: "lp-reject", false: "lp-accept"}[d > uint64(rem)])
 				}
